@@ -62,6 +62,54 @@ def g_sphere(xm):
     return math.fsum((y - 0.5) ** 2 for y in xm)
 
 
+# Red-team round 4 (rule 8): near the Pareto-optimal set g -> 0 and the general tolerance 1e-9 * (1 + g) hides whatever the
+# code does with a small g (a clamp `if gm < 1e-6: gm = 0.`).  For points whose distance variables are all within NEAR of
+# 0.5 the g-dependent part of the identity is compared with g itself: |(norm - 1) - g| <= REL * g + floor.  The floors are
+# ~10x the rounding noise of the unchanged implementation at such points, whatever g (DTLZ1/3: k - sum(cos) cancels
+# with an absolute error of a few ulp(k), times 100; DTLZ2/4: 1 + g rounds to ulp(1)); residuals measured on every run are
+# in the evidence (`near_front_max_residual_over_allowance`).
+NEAR = 2e-3
+REL = 1e-3
+FLOOR = {"dtlz1": 2e-11, "dtlz3": 2e-11, "dtlz2": 2e-14, "dtlz4": 2e-14}
+ZTOL = 1e-12          # ZDT1 / bi-objective identities: a handful of roundings of O(1) quantities
+RESID = {}
+
+
+def g_exact(kind, xm):
+    """g of the family for the distance variables xm: exact rational arithmetic on the binary64 inputs; the cosine of
+    the multimodal g is taken at the correctly rounded argument (error <= 1 ulp of 1 per term: far below the floors)"""
+    if kind in ("dtlz2", "dtlz4"):
+        return sum((Fraction(y) - Fraction(1, 2)) ** 2 for y in xm)
+    pi = Fraction(math.pi) + Fraction(1.2246467991473532e-16)      # pi to ~1e-32
+    t = Fraction(len(xm))
+    for y in xm:
+        d = Fraction(y) - Fraction(1, 2)
+        t += d * d - Fraction(math.cos(float(20 * pi * d)))
+    return 100 * t
+
+
+def near_front(kind, m, x, f):
+    """the tight clause; None when the point is not near the Pareto-optimal set"""
+    xm = x[m - 1:]
+    if not xm or any(abs(y - 0.5) > NEAR for y in xm):
+        return None
+    g = g_exact(kind, xm)
+    if kind == "dtlz1":
+        excess = 2 * sum(Fraction(v) for v in f) - 1                 # 2 * sum f - 1 = g
+        name = "2*sum(f) - 1"
+    else:
+        excess = Fraction(math.sqrt(math.fsum(v * v for v in f))) - 1   # norm - 1 = g
+        name = "norm(f) - 1"
+    allow = REL * abs(g) + Fraction(FLOOR[kind])
+    r = float(abs(excess - g) / allow)
+    RESID[kind] = max(RESID.get(kind, 0.0), r)
+    if r > 1.0:
+        return ("%s near the Pareto-optimal set (distance variables within %.0e .. %.0e of 0.5): %s = %.6e but g = %.6e "
+                "(allowed difference %.2e)" % (kind.upper(), float(min(abs(y - 0.5) for y in xm)), float(max(abs(y - 0.5) for y in xm)),
+                                                name, float(excess), float(g), float(allow)))
+    return None
+
+
 def oracle(kind, m, x, f):
     """Property clauses on the implementation's own output; returns a list of failure texts."""
     bad = []
@@ -85,21 +133,31 @@ def oracle(kind, m, x, f):
         got = math.fsum(f)
         if not close(got, want):
             bad.append("DTLZ1: sum of objectives %.17g, (1+g)/2 = %.17g (g of the last k=%d variables)" % (got, want, k))
+        else:
+            why = near_front(kind, m, x, f)
+            if why:
+                bad.append(why)
     elif kind in ("dtlz2", "dtlz3", "dtlz4"):
         g = g_multimodal(x[m - 1:]) if kind == "dtlz3" else g_sphere(x[m - 1:])
         got = math.sqrt(math.fsum(v * v for v in f))
         if not close(got, 1.0 + g):
             bad.append("%s: Euclidean norm of objectives %.17g, 1+g = %.17g (g of the last 10 variables)" % (kind.upper(), got, 1.0 + g))
+        else:
+            why = near_front(kind, m, x, f)
+            if why:
+                bad.append(why)
     elif kind == "zdt1":
         g = 1.0 + 9.0 * (math.fsum(x[1:]) / (len(x) - 1))
         want = g * (1.0 - math.sqrt(f[0] / g)) if f[0] >= 0 else float("nan")
         if f[0] != x[0]:
             bad.append("ZDT1: f1 = %.17g differs from x1 = %.17g" % (f[0], x[0]))
-        if not close(f[1], want):
+        if not abs(f[1] - want) <= ZTOL * (1 + abs(want)):
             bad.append("ZDT1: f2 = %.17g, g(1 - sqrt(f1/g)) = %.17g with g = 1 + 9 mean(x2..xn) = %.17g" % (f[1], want, g))
+        RESID["zdt1"] = max(RESID.get("zdt1", 0.0), abs(f[1] - want) / (ZTOL * (1 + abs(want))))
     elif kind == "biobj":
-        if not close(f[0] * f[1], 1.0 + x[1]):
+        if not abs(f[0] * f[1] - (1.0 + x[1])) <= ZTOL * (2 + abs(x[1])):
             bad.append("bi-objective problem: f1*f2 = %.17g, 1 + x2 = %.17g" % (f[0] * f[1], 1.0 + x[1]))
+        RESID["biobj"] = max(RESID.get("biobj", 0.0), abs(f[0] * f[1] - (1.0 + x[1])) / (ZTOL * (2 + abs(x[1]))))
     return bad
 
 
@@ -144,9 +202,31 @@ def gen_point(rng, kind, m, n, style):
         pos = [away_from_half(rng) for _ in range(npos)]
         pos[rng.randrange(npos)] = float(rng.randrange(2))
         dist = [0.5 + rng.choice([-1, 1]) * rng.choice([2.0 ** -30, 1e-3, 0.05, 0.025]) for _ in range(n - npos)]
+    elif style.startswith("near"):     # rule 8: distance variables approaching 0.5 at one scale, from both sides
+        _, shape, scale = style.split(":")
+        d = float(scale)
+        pos = [away_from_half(rng) for _ in range(npos)]
+        if kind == "dtlz4":
+            pos = [v ** 0.01 for v in pos]
+        nd = n - npos
+        if shape == "all":            # every distance variable at +-d
+            dist = [0.5 + rng.choice([-1, 1]) * d for _ in range(nd)]
+        elif shape == "one":          # one distance variable at +-d, the others exactly 0.5
+            dist = [0.5] * nd
+            dist[rng.randrange(nd)] = 0.5 + rng.choice([-1, 1]) * d
+        elif shape == "some":         # a few at +-d * (1 .. 2.5), the others exactly 0.5
+            dist = [0.5 + rng.choice([-1, 1]) * d * rng.choice([1.0, 1.5, 2.0, 2.5]) if rng.random() < 0.4 else 0.5 for _ in range(nd)]
+            if all(v == 0.5 for v in dist):
+                dist[rng.randrange(nd)] = 0.5 + d
+        else:                         # mixed scales up to d
+            dist = [0.5 + rng.choice([-1, 1]) * d * rng.choice([1.0, 0.1, 0.01, 1e-3, 0.0]) for _ in range(nd)]
     else:
         raise ValueError(style)
     return pos + dist
+
+
+NEAR_SCALES = ["1e-3", "1e-4", "2e-5", "1e-5", "1e-6", "1e-7", "1e-9", "1e-12"]
+NEAR_SHAPES = ["all", "one", "some", "mix"]
 
 
 def as_dtype(x, dtype):
@@ -166,23 +246,53 @@ def run(ctx):
     rng = ctx.rng
 
     problems = {}
+    import contextlib, io, logging
+    # Red-team round 4: the constructors forward **kwargs (BenchmarkFunction -> Problem -> set(**kwargs)); the DTLZ
+    # classes read `dimension`, `m` and `criteria` (one direction for all objectives, handed to
+    # generate_objective_functions; anything but 'minimize' gives sign -1), every other keyword is accepted and ignored;
+    # ZDT1 accepts and ignores all of them, BiObjectiveTestProblem() accepts none.  The declared direction can also be changed in place
+    # afterwards, per objective (rule 9).  C16's identities are about what evaluate() returns, whatever is declared.
+    VARIANTS = ["default", "criteria=minimize", "criteria=maximize", "criteria=max", "other_kwargs",
+                "in_place:alternating", "in_place:all_maximize", "in_place:first_maximize"]
 
-    def problem(kind, m, n):
-        key = (kind, m, n)
+    def problem(kind, m, n, variant="default"):
+        key = (kind, m, n, variant)
         if key not in problems:
-            if kind == "zdt1":
-                problems[key] = bp.ZDT1()
-            elif kind == "biobj":
-                problems[key] = bp.BiObjectiveTestProblem()
-            else:
-                cls = {"dtlz1": bp.DTLZI, "dtlz2": bp.DTLZII, "dtlz3": bp.DTLZIII, "dtlz4": bp.DTLZIV}[kind]
-                problems[key] = cls(**{"dimension": n, "m": m})
+            kw = {}
+            if variant.startswith("criteria="):
+                kw["criteria"] = variant.split("=", 1)[1]
+            elif variant == "other_kwargs":
+                kw.update(initial_value=0.25, name="renamed", lb=-1.0, ub=2.0, k=3, alpha=2.0, signs=[-1, -1])
+            with contextlib.redirect_stderr(io.StringIO()):
+                if kind == "zdt1":
+                    p = bp.ZDT1(**kw)
+                elif kind == "biobj":
+                    p = bp.BiObjectiveTestProblem(**kw)
+                else:
+                    cls = {"dtlz1": bp.DTLZI, "dtlz2": bp.DTLZII, "dtlz3": bp.DTLZIII, "dtlz4": bp.DTLZIV}[kind]
+                    p = cls(**dict(kw, dimension=n, m=m))
+            try:
+                p.logger.setLevel(logging.CRITICAL)
+            except Exception:
+                pass
+            if variant.startswith("in_place:"):
+                how = variant.split(":", 1)[1]
+                nobj = len(p.costs)
+                maxi = [{"alternating": i % 2 == 1, "all_maximize": True, "first_maximize": i == 0}[how] for i in range(nobj)]
+                for c_, mx in zip(p.costs, maxi):
+                    c_["criteria"] = "maximize" if mx else "minimize"
+                p.signs = [-1 if mx else 1 for mx in maxi]
+            problems[key] = p
         return problems[key]
+
+    def pick_variant():
+        return "default" if rng.random() < 0.4 else rng.choice(VARIANTS[1:])
 
     goals, meta = [], []
     seen_goals = set()
     stats = {"points": 0, "by_class": {}, "by_m": {}, "by_style": {}, "by_dtype": {}, "numpy_bit_identical": 0,
-             "numpy_differs": 0, "goals": 0, "oracle_only_points": 0, "position_vars_at_half": 0}
+             "numpy_differs": 0, "goals": 0, "oracle_only_points": 0, "position_vars_at_half": 0, "by_variant": {},
+             "near_front_points": 0}
 
     def model_term(kind, m, x):
         xs = "[" + "; ".join(rl(v) for v in x) + "]"
@@ -190,18 +300,24 @@ def run(ctx):
             return "%s %d%%nat %s" % (kind, m, xs)
         return "%s %s" % (kind, xs)
 
-    def evaluate(kind, m, x, dtype):
-        p = problem(kind, m, len(x))
+    def evaluate(kind, m, x, dtype, variant="default"):
+        p = problem(kind, m, len(x), variant)
         return p.evaluate(Individual(as_dtype(x, dtype)))
 
-    def check_point(kind, m, x, style, dtypes=("float", "np_float64"), with_goals=True):
+    def check_point(kind, m, x, style, dtypes=("float", "np_float64"), with_goals=True, variant=None):
         """Runs the implementation on x (once per dtype), the direct oracle on every result, and emits
         the model point goals (once per distinct result)."""
-        inp = {"class": kind, "m": m, "dimension": len(x), "x": [float(v) for v in x], "style": style}
+        variant = variant or pick_variant()
+        if kind == "biobj" and not variant.startswith(("default", "in_place")):
+            variant = "default"            # BiObjectiveTestProblem.set() takes no keywords: the constructor accepts none
+        inp = {"class": kind, "m": m, "dimension": len(x), "x": [float(v) for v in x], "style": style, "constructed": variant}
+        stats["by_variant"][variant] = stats["by_variant"].get(variant, 0) + 1
+        if style.startswith("near"):
+            stats["near_front_points"] += 1
         results = []
         for dtype in dtypes:
             try:
-                f = evaluate(kind, m, x, dtype)
+                f = evaluate(kind, m, x, dtype, variant)
                 f = list(f)
             except Exception as e:
                 msg = "%s.evaluate raised %r for a point of the box (%s input)" % (kind, e, dtype)
@@ -222,7 +338,7 @@ def run(ctx):
             nontrivial = style not in ("half",)
             ctx.count((kind, m, tuple(inp["x"]), dtype), nontrivial=nontrivial)
         stats["points"] += 1
-        for k_, v_ in (("by_class", kind), ("by_m", m), ("by_style", style)):
+        for k_, v_ in (("by_class", kind), ("by_m", m), ("by_style", style.split(":")[0])):
             stats[k_][v_] = stats[k_].get(v_, 0) + 1
         if kind.startswith("dtlz") and any(v == 0.5 for v in x[:m - 1]):
             stats["position_vars_at_half"] += 1
@@ -278,6 +394,24 @@ def run(ctx):
                 styles += ["corner", "pareto", "mixed", "mixed"]
             for style in styles:
                 check_point(kind, m, gen_point(rng, kind, m, n, style), style)
+    # ---- near the Pareto-optimal set: distance variables approaching 0.5 at every scale, both sides (rule 8) -----
+    # with model goals: every scale for DTLZ3 (the multimodal g cancels k - sum(cos)) and DTLZ1, two scales for DTLZ2 / 4
+    for kind in ("dtlz3", "dtlz1", "dtlz2", "dtlz4"):
+        scales = NEAR_SCALES if kind == "dtlz3" else ["1e-4", "1e-6", "1e-9"] if kind == "dtlz1" else ["1e-3", "1e-6"]
+        if not ctx.thorough and kind != "dtlz3":
+            scales = scales[:2]
+        for sc in scales:
+            shape = rng.choice(NEAR_SHAPES) if kind != "dtlz3" else ["all", "one", "some", "mix"][NEAR_SCALES.index(sc) % 4]
+            m = rng.choice([2, 3])
+            check_point(kind, m, gen_point(rng, kind, m, m + 9, "near:%s:%s" % (shape, sc)), "near:%s:%s" % (shape, sc), dtypes=("float",))
+    # every variant of the constructor on one fixed point per class (with goals: the model does not know the variant)
+    for kind in ("dtlz1", "dtlz2", "dtlz3", "dtlz4"):
+        x = gen_point(rng, kind, 3, 12, "random")
+        for variant in VARIANTS:
+            check_point(kind, 3, x, "random", dtypes=("float",), variant=variant)
+    for variant in VARIANTS:
+        check_point("zdt1", 2, [0.25] + [0.5] * 29, "zdt1", dtypes=("float",), variant=variant)
+        check_point("biobj", 2, [0.4, 3.0], "biobj", dtypes=("float",), variant=variant)
     # ---- DTLZ1 with other k (dimension m + k - 1) --------------------------------------------
     for m, k in [(2, 1), (3, 5), (2, 5), (4, 1), (3, 2)][:ctx.pick(3, 5)]:
         for style in ["random", "corner"] + (["random"] * 4 if ctx.thorough else []):
@@ -289,12 +423,18 @@ def run(ctx):
     zpoints.append([rng.random()] + [0.0] * 29)                      # on the Pareto front: g = 1
     zpoints.append([rng.random() for _ in range(2)])
     zpoints.append([rng.random() for _ in range(5)])
+    for sc in ([1e-3, 1e-6, 1e-9] if not ctx.thorough else [1e-3, 1e-4, 1e-5, 1e-6, 1e-7, 1e-9, 1e-12]):   # g -> 1 (rule 8)
+        zpoints.append([rng.random()] + [sc * rng.choice([1.0, 0.5, 0.0]) for _ in range(29)])
+    zpoints.append([1.0 - 2.0 ** -53] + [1e-9] * 29)
+    zpoints.append([5e-324] + [1.0 - 2.0 ** -53] * 29)
     for x in zpoints:
         check_point("zdt1", 2, x, "zdt1", dtypes=("float", "np_float64", "np_array"))
     # ---- bi-objective problem on [0.1,1] x [0,5] ----------------------------------------------
     bpoints = [[0.1, 0.0], [1.0, 5.0], [0.1, 5.0], [1.0, 0.0], [0.5, 2.0]]
     for _ in range(ctx.pick(4, 40)):
         bpoints.append([rng.uniform(0.1, 1.0), rng.uniform(0.0, 5.0)])
+    # the edges of the box from inside (rule 8)
+    bpoints += [[math.nextafter(0.1, 1.0), 5e-324], [math.nextafter(1.0, 0.0), math.nextafter(5.0, 0.0)], [0.1, 1e-9], [1.0, 1e-300]]
     for x in bpoints:
         check_point("biobj", 2, x, "biobj", dtypes=("float", "np_float64", "np_array"))
 
@@ -306,6 +446,22 @@ def run(ctx):
                 style = "random" if j % 5 else rng.choice(["corner", "pareto", "mixed"])
                 check_point(kind, m, gen_point(rng, kind, m, m + 9, style), style,
                             dtypes=("float",) if j % 3 else ("np_float64",), with_goals=False)
+    # near-front points, oracle only: every class, every m, every scale and shape, float and numpy scalars
+    for kind in ("dtlz1", "dtlz2", "dtlz3", "dtlz4"):
+        for m in MS + [8, 12]:
+            for sc in NEAR_SCALES:
+                for shape in NEAR_SHAPES:
+                    for j in range(ctx.pick(2, 12)):
+                        style = "near:%s:%s" % (shape, sc)
+                        check_point(kind, m, gen_point(rng, kind, m, m + 9, style), style,
+                                    dtypes=("float",) if j % 2 == 0 else ("np_float64",), with_goals=False)
+    for sc in NEAR_SCALES:                      # DTLZ1 with other k, near the front
+        for j in range(ctx.pick(3, 12)):
+            m, k = rng.choice(MS), rng.randrange(1, 12)
+            style = "near:%s:%s" % (rng.choice(NEAR_SHAPES), sc)
+            check_point("dtlz1", m, gen_point(rng, "dtlz1", m, m + k - 1, style), style, dtypes=("float",), with_goals=False)
+            check_point("zdt1", 2, [rng.random()] + [float(sc) * rng.choice([1.0, 0.3, 0.0]) for _ in range(29)], "zdt1",
+                        dtypes=("float",), with_goals=False)
     for j in range(n_oracle):
         m = rng.choice(MS)
         k = rng.randrange(1, 12)
@@ -342,6 +498,8 @@ def run(ctx):
                                        "correspondence": "c16-purity", "case": {"class": kind, "m": m, "x": xa, "other": xb}})
 
     stats["goals"] = len(goals)
+    stats["near_front_max_residual_over_allowance"] = {k_: float("%.3g" % v_) for k_, v_ in sorted(RESID.items())}
+    stats["near_front_allowance"] = {"relative_to_g": REL, "floor": FLOOR, "distance_variables_within": NEAR, "zdt1_biobj_tolerance": ZTOL}
     ctx.coq_goals("c16", HEADER, goals, meta, shard=ctx.pick(22, 60))
     ctx.rule = ("a point is one (class, m, x, input dtype) evaluated by the implementation and checked by the direct oracle; "
                 "non-trivial = not the all-0.5 point; distinct = distinct (class, m, x, dtype). Model goals (one per objective value, "
